@@ -43,7 +43,7 @@ PROPS["C19"] = {
     "level_note": "Trusted: Lean kernel + 3 axioms; big.Int = unbounded Nat; the enclosing transaction is all-or-nothing (C04); ACL user ids as reported by the simulated ACL; model = hand transcription of token/transfer.go, buy_buyback.go, limit.go, methods.go checked by the differential run.",
     "trusted_base": ["token/transfer.go, buy_buyback.go, proto/limit.go, methods.go modelled by Foundation.Token", "feeDecimals/RateDecimal re-extracted each run (facts_decimals)"],
     "hypotheses": ["transfer_effect is stated for three distinct parties; aliasing (fee address = sender/recipient) is covered by the correspondence run only"],
-    "not_modelled": ["industrial (grouped) allowed-balance transfers", "deleteRate"],
+    "not_modelled": ["industrial (grouped) allowed-balance transfers (covered by the LAPI workload under C06: token.TxAllowedIndustrialBalanceTransfer)"],
     "assumptions": [],
 }
 
